@@ -27,7 +27,8 @@ from .. import projects as P
 
 CFG = """SPECIFICATION Spec
 CONSTANTS Source = "file"
-CONSTRAINT EmitNames
+CONSTRAINT EmitNamesX
+INVARIANT XRefDesign
 """
 
 
@@ -138,6 +139,57 @@ def judge_rows(ctx: Ctx, proj: Dict[str, Any], sched: List[int], rows: List[Dict
             counters["must_rows"] += 1
 
 
+def key_of(fn: List[Dict[str, Any]]) -> str:
+    """Registry key string of a qualified name printed by the spec ([b, d] components; d = i + 1 is 'name i')."""
+    return ".".join(c["b"] if c["d"] == 0 else f"{c['b']} {c['d'] - 1}" for c in fn)
+
+
+class _Reports:
+    """Stands in for the linker's reporting object: counts 'ambiguous ref' / 'Cannot find link target' reports."""
+    def __init__(self) -> None:
+        self.amb = 0
+        self.notfound = 0
+
+    def report(self, descr: str, section: str = "", lineno_offset: int = 0, thresh: int = -1) -> None:
+        if descr.startswith("ambiguous ref"):
+            self.amb += 1
+        elif descr.startswith("Cannot find link target"):
+            self.notfound += 1
+
+
+def judge_xrefs(ctx: Ctx, proj: Dict[str, Any], sched: List[int], xrefs: List[Dict[str, Any]], real: Dict[str, Any],
+                counters: Dict[str, int]) -> None:
+    """Linker.tla (extension of the specification, no listed property): every (context, identifier) row of the model is
+       replayed into the real linker; a difference is reported in the evidence as xref_drift, never as a verdict."""
+    from pydoctor import linker
+    system = real["system"]
+    for n, row in enumerate(xrefs):
+        if ctx.quick and row["step"] in (1, 3) and row["amb"] == 0 and n % 6:
+            continue                     # quick tier: every row of the DWIM steps, a sixth of the plain ones
+        co = system.allobjects.get(key_of(row["ctx"]))
+        if co is None:
+            counters["xref_ctx_missing"] += 1
+            continue
+        lk = linker._EpydocLinker(co)
+        rep = _Reports()
+        lk.reporting_obj = rep          # type: ignore[assignment]
+        ident = ".".join(row["name"])
+        try:
+            t = lk._resolve_identifier_xref(ident, 0)
+            got = t if isinstance(t, str) else t.fullName()
+        except LookupError:
+            got = None
+        want = key_of(row["t"]) if row["t"] else None
+        counters["xref_rows"] += 1
+        counters[f"xref_step{row['step']}"] += 1
+        counters["xref_ambiguous"] += 1 if row["amb"] else 0
+        if got != want or rep.amb != row["amb"] or (want is None) != (rep.notfound == 1):
+            counters["xref_drift"] += 1
+            if len(ctx.extra.setdefault("xref_drift_examples", [])) < 10:
+                ctx.extra["xref_drift_examples"].append({"family": proj["family"], "meta": proj["meta"], "sched": sched, "ctx": key_of(row["ctx"]),
+                                                         "name": ident, "spec": [want, row["amb"], row["step"]], "real": [got, rep.amb, rep.notfound]})
+
+
 def check_pybind_vs_cpython(ctx: Ctx, proj: Dict[str, Any], rows: List[Dict[str, Any]], pid: int) -> int:
     d = ctx.scratch / f"cpy_{pid}"
     d.mkdir()
@@ -202,6 +254,7 @@ def run(ctx: Ctx) -> int:
             real = P.real_build(proj, rec["sched"], ctx.scratch)
             ctx.traces += 1
             judge_rows(ctx, proj, rec["sched"], rec["rows"], real, counters)
+            judge_xrefs(ctx, proj, rec["sched"], rec["xrefs"], real, counters)
             if len(ctx.samples) < 3 and rec["rows"]:
                 ctx.sample({"family": proj["family"], "meta": proj["meta"], "sched": rec["sched"], "rows": rec["rows"][:8]})
     ctx.extra["projects"] = len(projs)
@@ -210,6 +263,9 @@ def run(ctx: Ctx) -> int:
     ctx.extra["pybind_names_validated_against_cpython"] = validated_names
     if counters["rows"] == 0 or counters["must_rows"] == 0 or validated_names == 0:
         raise MachineryError(f"vacuous run: {dict(counters)} validated={validated_names}")
+    if counters["xref_drift"]:
+        ctx.notes.append(f"Linker.tla (cross-reference search, no listed property): {counters['xref_drift']} of {counters['xref_rows']} rows differ between "
+                         "model and code - see xref_drift_examples")
     ctx.extra["negative_control"] = "PyBind/CPython comparison raises on any differing binding; wrong-object detection exercised by mutants/C04"
     ctx.exhaustive = True
     ctx.assumptions += ["projects are acyclic, definitions have globally unique names, one binding per name per scope (the property's quantifier)",
